@@ -184,13 +184,14 @@ func c05TypeLiteral(p *core.Program, t types.Type) (string, token.Pos, string) {
 		if x.Aborted != "" || pa.End != "return" || len(pa.Ret) != 2 {
 			return "", fi.Decl.Pos(), fi.Name() + " has a path that does not return (bytes, error)"
 		}
-		if pa.Ret[0].K != c03KStr || pa.St.Zero(pa.Ret[1]) != triT || len(cx.ops(pa)) > 0 {
+		text, isConst := c03BytesConst(pa.Ret[0])
+		if !isConst || pa.St.Zero(pa.Ret[1]) != triT || len(cx.ops(pa)) > 0 {
 			return "", pa.Pos, fi.Name() + " does not return a constant byte string and a nil error on every path (it returns " + pa.Ret[0].String() + ")"
 		}
-		if have && pa.Ret[0].Str != raw {
-			return "", pa.Pos, fmt.Sprintf("%s returns different constants on different paths (%s, %s)", fi.Name(), raw, pa.Ret[0].Str)
+		if have && text != raw {
+			return "", pa.Pos, fmt.Sprintf("%s returns different constants on different paths (%s, %s)", fi.Name(), raw, text)
 		}
-		raw, have = pa.Ret[0].Str, true
+		raw, have = text, true
 	}
 	if !have {
 		return "", fi.Decl.Pos(), fi.Name() + " has no returning path"
